@@ -501,3 +501,59 @@ Proof.
       match goal with |- context [if ?b then Exn ValueError else _] => destruct b end; reflexivity. }
   destruct maxsegs as [sm|]; [destruct (sm =? 0)|]; apply Hcore.
 Qed.
+
+(* ------------------------------------------------------------------ the same statements about the
+   translated source (what Properties/C19.v exposes) *)
+Theorem gen_split_path_spec path minsegs maxsegs rwl r : 1 <= minsegs ->
+  let M := eff_max minsegs maxsegs in
+  gen_split_path path minsegs maxsegs rwl = Ok r <->
+  (minsegs <= M /\
+   exists lead, accepted path (Z.to_nat minsegs) (Z.to_nat M) rwl lead /\ r = padded (Z.to_nat M) lead).
+Proof. rewrite gen_split_path_equiv. apply split_path_spec. Qed.
+Theorem gen_split_path_total path minsegs maxsegs rwl :
+  (exists r, gen_split_path path minsegs maxsegs rwl = Ok r) \/
+  gen_split_path path minsegs maxsegs rwl = Exn ValueError.
+Proof. rewrite gen_split_path_equiv. apply split_path_total. Qed.
+Theorem gen_split_path_length path minsegs maxsegs rwl r : 1 <= minsegs ->
+  gen_split_path path minsegs maxsegs rwl = Ok r -> llen r = eff_max minsegs maxsegs.
+Proof. rewrite gen_split_path_equiv. apply split_path_length. Qed.
+Theorem gen_split_path_rejects path minsegs maxsegs rwl : 1 <= minsegs ->
+  (forall lead, ~ accepted path (Z.to_nat minsegs) (Z.to_nat (eff_max minsegs maxsegs)) rwl lead) ->
+  gen_split_path path minsegs maxsegs rwl = Exn ValueError.
+Proof. rewrite gen_split_path_equiv. apply split_path_rejects. Qed.
+Theorem gen_minsegs_gt_maxsegs path minsegs maxsegs rwl :
+  minsegs > eff_max minsegs maxsegs -> gen_split_path path minsegs maxsegs rwl = Exn ValueError.
+Proof. rewrite gen_split_path_equiv. apply minsegs_gt_maxsegs_ValueError. Qed.
+
+Theorem segments_characterised body :
+  join [slash] (segments body) = body /\
+  Forall (fun p => ~ In slash p) (segments body) /\
+  (forall l, l <> [] -> Forall (fun p => ~ In slash p) l -> join [slash] l = body -> l = segments body).
+Proof. split; [apply segments_join|]. split; [apply segments_no_slash|]. intros l. apply segments_unique. Qed.
+
+(* non-vacuity / docstring examples *)
+From Coq Require Import String.
+Example split_path_examples :
+  gen_split_path (lit "/a") 1 None false = Ok [Some (lit "a")] /\
+  gen_split_path (lit "/a") 1 (Some 2) false = Ok [Some (lit "a"); None] /\
+  gen_split_path (lit "/a/c") 1 (Some 2) false = Ok [Some (lit "a"); Some (lit "c")] /\
+  gen_split_path (lit "/a/c/o/r") 1 (Some 3) true = Ok [Some (lit "a"); Some (lit "c"); Some (lit "o/r")] /\
+  gen_split_path (lit "/a/c/") 1 (Some 2) false = Ok [Some (lit "a"); Some (lit "c")] /\
+  gen_split_path (lit "/a/") 1 (Some 2) false = Ok [Some (lit "a"); Some []] /\
+  gen_split_path (lit "/a/c//") 1 (Some 2) false = Exn ValueError /\
+  gen_split_path (lit "a/c") 1 (Some 2) false = Exn ValueError /\
+  gen_split_path (lit "//c") 1 (Some 2) false = Exn ValueError /\
+  gen_split_path (lit "/a") 3 (Some 2) false = Exn ValueError.
+Proof. vm_compute. repeat split; reflexivity. Qed.
+Example accepted_example :
+  accepted (lit "/a/c/o/r") 1 3 true [lit "a"; lit "c"; lit "o/r"].
+Proof.
+  exists (lit "a/c/o/r"). split; [reflexivity|]. split.
+  - change (segments (lit "a/c/o/r")) with [lit "a"; lit "c"; lit "o"; lit "r"].
+    apply (lead_rest true 3 [lit "a"; lit "c"; lit "o"; lit "r"]); [reflexivity|cbn; lia].
+  - split; [cbn; lia|]. repeat constructor; discriminate.
+Qed.
+(* outside the range of the property (minsegs < 1) the reading "starts with '/'" fails:
+   the empty path is accepted with minsegs = 0 *)
+Example split_path_minsegs0_witness : gen_split_path [] 0 None false = Ok [].
+Proof. vm_compute. reflexivity. Qed.
